@@ -238,8 +238,6 @@ CORPUS = [
     (Q(V("int", 0), V("schar", 1), V("uchar", 2)), [[1, -1, 200], [0, -1, 200]]),
     (B("add", lit(2147483648), lit(1)), [[]]),
     (B("add", ("C", 200), lit(1)), [[]]),
-    (B("gt", B("sub", ("Z", "int", 4), lit(5)), lit(0)), [[]]),      # sizeof is unsigned: 1
-    (B("div", U("neg", lit(1)), ("Z", "char", 1)), [[]]),
     # arithmetic conversions / truncating division / shifts / casts
     (B("div", V("int", 0), V("int", 1)), [[-7, 2], [7, -2], [-2147483648, 1], [2147483647, -1]]),
     (B("mod", V("int", 0), V("int", 1)), [[-7, 2], [7, -2], [-7, -2], [-2147483647, -1]]),
@@ -267,6 +265,15 @@ CORPUS = [
     (B("lt", lit(0xffffffff, "n", "x"), lit(0)), [[]]),
     (B("lt", U("neg", lit(1)), lit(0, "u")), [[]]),
     (B("shl", lit(1), lit(31, "u")), [[]]),
+]
+
+
+# sizeof has a SIGNED type in ppci (open finding ctype:sizeof:signed): these reproduce it on every run
+SIZEOF_CORPUS = [
+    (("Z", "int", 4), [[]]),
+    (B("gt", B("sub", ("Z", "int", 4), lit(5)), lit(0)), [[]]),      # 1 in C (unsigned arithmetic), 0 with a signed sizeof
+    (B("div", U("neg", lit(1)), ("Z", "char", 1)), [[]]),
+    (B("lt", V("int", 0), ("Z", "long", 8)), [[-1], [3]]),
 ]
 
 
@@ -332,27 +339,31 @@ def pair_vectors(params, rng, n_extra):
 
 # ----------------------------------------------------------------------------------------------
 def check(ctx):
+    import time
     rng = ctx.rng
     thorough = ctx.thorough
+    phases = {}
+    t0 = time.time()
     cases = []          # dict(label, tree, params, argvs, kind)
 
     def add(label, tree, params, argvs, kind):
         cases.append({"label": label, "tree": tree, "params": params, "argvs": argvs, "kind": kind})
 
-    for i, (tree, argvs) in enumerate(CORPUS):
+    def params_of(tree):
         vs = L.variables(tree)
-        params = [vs.get(j, "int") for j in range(max(vs) + 1)] if vs else []
-        add(f"corpus{i}", tree, params, argvs, "corpus")
+        return [vs.get(j, "int") for j in range(max(vs) + 1)] if vs else []
+
+    for i, (tree, argvs) in enumerate(CORPUS):
+        add(f"corpus{i}", tree, params_of(tree), argvs, "corpus")
+    for i, (tree, argvs) in enumerate(SIZEOF_CORPUS):
+        add(f"sizeof{i}", tree, params_of(tree), argvs, "sizeof")
     singles = single_operator_cases()
     for label, tree, params in singles:
-        n = 6 if thorough else 2
-        argvs = pair_vectors(params, rng, n)
-        if not thorough and not label.startswith("bin:"):
-            argvs = argvs[:12]
-        if not thorough and label.startswith("bin:"):
-            argvs = rng.sample(argvs, min(len(argvs), 9))
+        argvs = pair_vectors(params, rng, 6 if thorough else 2)
+        if not thorough:
+            argvs = rng.sample(argvs, min(len(argvs), 6 if label.startswith("bin:") else 8))
         add(label, tree, params, argvs, "single")
-    n_random = 2500 if thorough else 260
+    n_random = 2500 if thorough else 160
     for i in range(n_random):
         np_ = rng.randint(1, 6)
         params = [rng.choice(L.TYPES) for _ in range(np_)]
@@ -360,20 +371,18 @@ def check(ctx):
         tree = L.gen_expr(rng, depth, params)
         if L.size(tree) > 60:
             continue
-        add(f"rand{i}", tree, params, L.gen_args(rng, params, 14 if thorough else 8), "random")
+        add(f"rand{i}", tree, params, L.gen_args(rng, params, 14 if thorough else 6), "random")
 
     # ---- the real front-end (process pool) ------------------------------------------------------
-    per_unit = 45
-    jobs, index = [], []
-    spec_ir_units = set()
+    per_unit = 60
+    jobs = []
     for k in range(0, len(cases), per_unit):
         chunk = cases[k:k + per_unit]
         src = "\n".join(L.func_text(f"f{k + j}", "llong", c["params"], c["tree"]) for j, c in enumerate(chunk)) + "\n"
         funcs = [(f"f{k + j}", c["argvs"]) for j, c in enumerate(chunk)]
         # Spec.IR itself executes: the corpus unit, and a sample of the others
-        sir = k == 0 or rng.random() < (0.5 if thorough else 0.12)
-        jobs.append({"src": src, "funcs": funcs, "spec_ir": sir, "native": thorough and rng.random() < 0.5})
-        index.append((k, len(chunk)))
+        sir = k == 0 or rng.random() < (0.4 if thorough else 0.08)
+        jobs.append({"src": src, "funcs": funcs, "spec_ir": sir, "native": thorough and rng.random() < 0.35})
     results = L.run_units(jobs)
 
     # a unit that does not compile is split so that the offending function is alone
@@ -383,9 +392,9 @@ def check(ctx):
         for job, res in zip(jobs, results):
             if res["status"] == "ok":
                 for name, _ in job["funcs"]:
-                    per_case[int(name[1:])] = (res["funcs"][name], res, job)
+                    per_case[int(name[1:])] = res["funcs"][name]
             elif len(job["funcs"]) == 1:
-                per_case[int(job["funcs"][0][0][1:])] = ({"error": res["status"], "msg": res["msg"]}, res, job)
+                per_case[int(job["funcs"][0][0][1:])] = {"error": res["status"], "msg": res["msg"]}
             else:
                 lines = job["src"].splitlines()
                 h = len(lines) // 2
@@ -396,31 +405,33 @@ def check(ctx):
     rounds = 0
     while retry and rounds < 8:
         rr = L.run_units(retry)
-        pc, retry2 = flatten(retry, rr)
+        pc, retry = flatten(retry, rr)
         per_case.update(pc)
-        retry = retry2
         rounds += 1
+    phases["frontend"] = round(time.time() - t0, 1)
+    t0 = time.time()
 
     # ---- the model and the specification (one driver run) -----------------------------------------
     reqs = []
     slots = []
     for i, c in enumerate(cases):
         p = L.proto(c["tree"])
-        base = len(reqs)
+        slots.append(len(reqs))
         reqs += [f"stype {p}", f"relab {p}", f"rtree {p}" if L.nconds(c["tree"]) <= 10 else f"stype {p}"]
         for args in c["argvs"]:
             env = "[" + ",".join(str(a) for a in args) + "]"
             reqs += [f"seval {env} {p}", f"rieval {env} {p}"]
-        slots.append(base)
     replies = ctx.driver("C01", reqs)
+    phases["driver"] = round(time.time() - t0, 1)
+    t0 = time.time()
 
-    failing_values = []
+    failing = []          # (case index, argument vectors that expose it)
     for i, c in enumerate(cases):
         base = slots[i]
         stype = replies[base][3:]
         m_ast = replies[base + 1][3:]
         m_tree = replies[base + 2][3:] if L.nconds(c["tree"]) <= 10 else None
-        obs, res, job = per_case.get(i, ({"error": "lost"}, None, None))
+        obs = per_case.get(i, {"error": "lost"})
         ctx.count("eval_" + c["kind"])
         label = c["label"]
         text = L.render_c(c["tree"])
@@ -442,14 +453,11 @@ def check(ctx):
             if obs["tree"] != m_tree:
                 ctx.disagree("ir-decision-tree", {"label": label, "c": text}, obs["tree"], m_tree)
         # --- the property: typing.  The type ppci gives the expression is read off the real AST
+        bad_args = []
         real_ty = ast_type(obs["ast"])
-        want = L.MODEL_OF_SPEC.get(stype, stype)
-        if real_ty != want:
-            ctx.fail(f"ctype:{op_class(c['tree'])}:{':'.join(type_class(t) for t in root_operand_types(c['tree'], replies, reqs))}",
-                     f"`{text}` with {decl_text(c)} has type {stype} in C, ppci gives it {real_ty}",
-                     {"label": label, "c": text, "params": c["params"]}, impl=obs["ast"], spec=stype)
-        elif c["kind"] == "single":
-            ctx.nontrivial(label) if ("icast" in obs["ast"]) else None
+        type_bad = real_ty != L.MODEL_OF_SPEC.get(stype, stype)
+        if not type_bad and c["kind"] == "single" and "icast" in obs["ast"]:
+            ctx.nontrivial(label)
         # --- the property: values
         vals = obs.get("vals") or []
         nat = obs.get("native")
@@ -462,22 +470,26 @@ def check(ctx):
             ctx.count("eval_value")
             want_v = L.wrap("llong", int(sv))
             got = vals[j] if j < len(vals) else "missing"
-            if mv != str(want_v):
-                # the theorem says this cannot happen (except through sizeof): the model's code computes C's value
+            if mv != str(want_v) and c["kind"] != "sizeof":
+                # the theorem says this cannot happen (sizeof excepted): the model's code computes C's value
                 ctx.disagree("model-value-vs-spec", {"label": label, "c": text, "args": args}, mv, str(want_v))
             if got != want_v:
-                failing_values.append((i, j, got, want_v))
+                bad_args.append(args)
             elif want_v != wrap_naive(c, args):
                 ctx.nontrivial((label if c["kind"] != "random" else text, tuple(args)))
             if nat is not None and j < len(nat):
                 ctx.count("eval_native")
                 if nat[j] != want_v:
                     ctx.count("native_differs")
-                    ctx.note(f"native x86-64 run differs (backend, C04/C05): {text} args={args}: {nat[j]} vs {want_v}") \
-                        if ctx.counts["native_differs"] <= 5 else None
+                    if ctx.counts["native_differs"] <= 5:
+                        ctx.note(f"native x86-64 run differs (back-end, C04/C05, not reported here): {text} args={args}: {nat[j]} vs {want_v}")
+        if type_bad or bad_args:
+            failing.append((i, bad_args, type_bad))
         if c["kind"] in ("corpus", "random") and len(ctx.samples) < 6 and i % 37 == 0:
             ctx.sample({"c": text, "params": c["params"], "typed_ast": obs["ast"][:300], "spec_type": stype,
                         "args": c["argvs"][:2], "values": vals[:2]})
+    phases["compare"] = round(time.time() - t0, 1)
+    t0 = time.time()
 
     # ---- Spec.IR executes the real modules (subset) -----------------------------------------------
     ir_lines, ir_index = [], []
@@ -491,6 +503,7 @@ def check(ctx):
                     ir_lines.append(f"run {name} 100000 " + " ".join(str(a) for a in args))
     if ir_lines:
         ir_rep = ctx.driver("IR", ir_lines)
+        already = {i for i, _, _ in failing}
         for pos, ci, j in ir_index:
             c = cases[ci]
             sv = replies[slots[ci] + 3 + 2 * j][3:]
@@ -500,21 +513,31 @@ def check(ctx):
             r = ir_rep[pos]
             got = L.parse_ret(r[3:]) if r.startswith("ok ret=") else r
             want_v = L.wrap("llong", int(sv))
-            if got != want_v:
-                ctx.fail(f"cvalue:specir:{op_class(c['tree'])}",
-                         f"Spec.IR run of the emitted function for `{L.render_c(c['tree'])}` args={c['argvs'][j]} gives {got}, C gives {want_v}",
-                         {"label": c["label"], "c": L.render_c(c["tree"]), "params": c["params"], "args": c["argvs"][j]})
-    # ---- value failures (ir_to_python executed the real IR): shrink to the smallest failing subtree ----
-    report_value_failures(ctx, cases, failing_values)
+            if got != want_v and ci not in already:
+                already.add(ci)
+                failing.append((ci, [c["argvs"][j]], False))
+    phases["specir"] = round(time.time() - t0, 1)
+    t0 = time.time()
+    # ---- failures: shrink to the smallest failing subtree, which names the signature ---------------
+    report_failures(ctx, cases, failing)
+    phases["failures"] = round(time.time() - t0, 1)
+    t0 = time.time()
 
     check_tables(ctx)
     check_layout(ctx)
+    phases["layout"] = round(time.time() - t0, 1)
+    t0 = time.time()
     if thorough:
         validate_spec_with_gcc(ctx, cases, replies, slots)
+        phases["gcc"] = round(time.time() - t0, 1)
+        t0 = time.time()
+    program_differential(ctx)
+    phases["programs"] = round(time.time() - t0, 1)
+    ctx.extra_cov["phase_seconds"] = phases
     ctx.extra_cov["exhaustive"] = True
     ctx.extra_cov["exhaustive_domain"] = (f"{len(singles)} single-operator programs: 18 binary operators x 10 x 10 BasicTypes, 4 unary x 11, "
                                           "casts 11 x 11, ?: 10 x 10 branch types + 11 condition types (typing and emitted code); "
-                                          "operand VALUES are sampled")
+                                          "operand VALUES, nested expressions and layouts are sampled")
 
 
 def wrap_naive(c, args):
@@ -662,31 +685,30 @@ def child_types(ctx, tree):
     return [type_class(r[3:]) for r in rep]
 
 
-def report_value_failures(ctx, cases, failing_values, limit=6):
-    by_case = {}
-    for i, j, got, want in failing_values:
-        by_case.setdefault(i, []).append((j, got, want))
-    for n, (i, rows) in enumerate(sorted(by_case.items())):
+def report_failures(ctx, cases, failing, limit=8):
+    """failing: [(case index, [argument vectors with a wrong value], type is wrong)]"""
+    for n, (i, bad_args, type_bad) in enumerate(failing):
         c = cases[i]
         text = L.render_c(c["tree"])
-        j, got, want = rows[0]
-        if n >= limit:
-            ctx.fail(f"cvalue:{op_class(c['tree'])}:unshrunk", f"`{text}` args={c['argvs'][j]}: emitted IR computes {got}, C gives {want}",
-                     {"label": c["label"], "c": text, "params": c["params"], "args": c["argvs"][j]})
+        info = {"label": c["label"], "c": text, "params": c["params"], "args": bad_args[:2]}
+        if n >= limit and c["kind"] != "sizeof":
+            ctx.fail(f"c{'type' if type_bad else 'value'}:{op_class(c['tree'])}:unshrunk",
+                     f"`{text}` with {decl_text(c)}: {'wrong type' if type_bad else 'wrong value'} (args {bad_args[:1]}); "
+                     f"more than {limit} failing programs, not shrunk", info)
             continue
-        argvs = [c["argvs"][jj] for jj, _, _ in rows[:4]]
+        argvs = bad_args[:4] or c["argvs"][:2] or [[]]
         r, what = smallest_failing(ctx, c, argvs)
         if r is None:
-            ctx.fail(f"cvalue:{op_class(c['tree'])}:whole", f"`{text}` args={c['argvs'][j]}: emitted IR computes {got}, C gives {want} "
-                     "(no proper subtree fails alone)", {"label": c["label"], "c": text, "params": c["params"], "args": c["argvs"][j]})
+            ctx.fail(f"cvalue:{op_class(c['tree'])}:whole", f"`{text}` with {decl_text(c)} args={bad_args[:1]}: the emitted IR does not "
+                     "compute C's value (no subtree fails alone)", info)
             continue
         sub = r["tree"]
         kinds = ":".join(child_types(ctx, sub))
         if what == "type":
-            ctx.fail(f"ctype:{op_class(sub)}:{kinds}",
-                     f"`{r['c']}` with {decl_text(c)} has type {r['stype']} in C, ppci gives it {r['real_ty']} "
-                     f"(found through a wrong value of `{text}`)",
-                     {"label": c["label"], "c": r["c"], "params": c["params"]}, impl=r["ast"], spec=r["stype"])
+            sig = "ctype:sizeof:signed" if sub[0] == "Z" else f"ctype:{op_class(sub)}:{kinds}"
+            ctx.fail(sig, f"`{r['c']}` with {decl_text(c)} has type {r['stype']} in C, ppci gives it {r['real_ty']}"
+                     + (f" (smallest failing part of `{text}`)" if sub != c["tree"] else ""),
+                     {"label": c["label"], "c": r["c"], "params": c["params"], "within": text}, impl=r["ast"], spec=r["stype"])
         else:
             _, args, g, w = what
             # is it the executor? run the same function by the Spec.IR reference interpreter
@@ -703,7 +725,7 @@ def report_value_failures(ctx, cases, failing_values, limit=6):
                 verdict = f"; Spec.IR run: {sv}"
             ctx.fail(f"cvalue:{op_class(sub)}:{kinds}",
                      f"`{r['c']}` with {decl_text(c)} args={args}: emitted IR computes {g}, C gives {w}{verdict}",
-                     {"label": c["label"], "c": r["c"], "params": c["params"], "args": args}, impl=g, spec=w)
+                     {"label": c["label"], "c": r["c"], "params": c["params"], "args": args, "within": text}, impl=g, spec=w)
 
 
 # ----------------------------------------------------------------------------------------------
@@ -882,3 +904,41 @@ def search(ctx):
 
 def replay(ctx, rp):
     check(ctx)
+
+
+# ----------------------------------------------------------------------------------------------
+def program_differential(ctx):
+    """NOT covered by any theorem (statements, control flow, arrays, structs, pointers, calls, assignment operators, the
+    global memory image): random UB-free functions compiled by the real front-end and run by ir_to_python are compared
+    with the same functions compiled by gcc (-fsanitize=undefined) on random arguments.  Failing-input search only."""
+    rng = ctx.rng
+    nprog = 140 if ctx.thorough else 10
+    per = 10
+    for k in range(0, nprog, per):
+        src, funcs = L.gen_programs(rng, per)
+        argvs = {name: L.gen_args(rng, [L.PARAM_TAG[t] for t in pts], 8 if ctx.thorough else 4) for name, pts in funcs}
+        ours = L.run_programs_ppci(src, funcs, argvs)
+        theirs, err = L.run_programs_gcc(src, funcs, argvs)
+        if theirs is None:
+            raise common.BrokenCheck("gcc rejected a generated program: " + err)
+        if "error" in ours:
+            ctx.count("program_compile_error")
+            ctx.fail("cprogram:compile:" + ours["error"].split(":")[0], f"the front-end does not compile a generated program: {ours['error']}",
+                     {"source": src})
+            continue
+        for name, pts in funcs:
+            for j, args in enumerate(argvs[name]):
+                g = theirs[name][j]
+                if g is None or g == "UB":
+                    ctx.count("program_skipped_ub")
+                    continue
+                ctx.count("eval_program")
+                want_ret, want_g = g.split()
+                o = ours[name][j]
+                ow = o.split()
+                got_ret = ow[0] if ow else o
+                got_g = next((w for w in ow if w.startswith("globals=")), "globals=")
+                ok = got_ret == want_ret and got_g == "globals=g=" + want_g[2:]
+                if not ok:
+                    ctx.fail("cprogram:differs", f"{name}({', '.join(str(a) for a in args)}): ppci front-end + ir_to_python gives `{o[:120]}`, "
+                             f"gcc gives `{g}`", {"function": name, "args": args, "source": src})
